@@ -2440,6 +2440,83 @@ impl<'a, C: Crypto> TransportRunner<'a, C> {
     }
 }
 
+/// Verification hooks: direct entries to the receive and the send pipeline.
+#[cfg(rs_matter_verif)]
+impl<'a, C: Crypto> TransportRunner<'a, C> {
+    /// Run `decode_packet` on a datagram received from `peer`, set up as `process_rx` does.
+    ///
+    /// Returns the result, the packet header as left by the decoding, and the number of
+    /// payload bytes copied to `payload_out`.
+    pub fn verif_decode_packet(
+        &self,
+        peer: Address,
+        data: &[u8],
+        payload_out: &mut [u8],
+    ) -> (Result<bool, Error>, PacketHdr, usize) {
+        let mut packet = Packet::<MAX_RX_BUF_SIZE>::new();
+        unwrap!(packet.buf.resize_default(MAX_RX_BUF_SIZE));
+
+        let len = core::cmp::min(data.len(), MAX_RX_BUF_SIZE);
+        packet.buf[..len].copy_from_slice(&data[..len]);
+        packet.peer = peer;
+        packet.buf.truncate(len);
+        packet.payload_start = 0;
+
+        let result = self.decode_packet(&mut packet);
+
+        let payload = &packet.buf[core::cmp::min(packet.payload_start, packet.buf.len())..];
+        let n = core::cmp::min(payload.len(), payload_out.len());
+        payload_out[..n].copy_from_slice(&payload[..n]);
+
+        (result, packet.header.clone(), n)
+    }
+
+    /// `write_packet` with encoding on the given session: the payload is written,
+    /// `meta` is set into the protocol header, then `Session::pre_send` and
+    /// `Session::encode` run. `group_data_ctr` is stashed on the exchange first, as
+    /// `Exchange::initiate_group` would.
+    ///
+    /// Returns the header that was encoded and the number of bytes written to `out`.
+    pub fn verif_write_packet(
+        &self,
+        session_id: u32,
+        exch_index: Option<usize>,
+        group_data_ctr: Option<u32>,
+        meta: MessageMeta,
+        payload: &[u8],
+        out: &mut [u8],
+    ) -> Result<(PacketHdr, usize), Error> {
+        let mut packet = Packet::<MAX_TX_BUF_SIZE>::new();
+
+        self.matter.with_state(|state| {
+            let session = state
+                .sessions
+                .get(session_id)
+                .ok_or(ErrorCode::NoSession)?;
+
+            #[cfg(feature = "groups")]
+            if let (Some(index), Some(ctr)) = (exch_index, group_data_ctr) {
+                unwrap!(session.exchanges[index].as_mut()).group_data_ctr = Some(ctr);
+            }
+            #[cfg(not(feature = "groups"))]
+            let _ = group_data_ctr;
+
+            self.write_packet(&mut packet, Some(session), exch_index, true, |wb| {
+                wb.append(payload)?;
+                Ok(Some(meta))
+            })
+        })?;
+
+        let encoded = &packet.buf[core::cmp::min(packet.payload_start, packet.buf.len())..];
+        if encoded.len() > out.len() {
+            return Err(ErrorCode::NoSpace.into());
+        }
+        out[..encoded.len()].copy_from_slice(encoded);
+
+        Ok((packet.header.clone(), encoded.len()))
+    }
+}
+
 #[derive(Copy, Clone, Default, PartialEq, Eq, Debug, Hash)]
 #[cfg_attr(feature = "defmt", derive(defmt::Format))]
 pub(crate) enum TxPayloadState {
